@@ -86,3 +86,16 @@ Example C06_gate_closed_example :
   nanoc {| front_ok := true; later_ok := true |} 200 spgood_failing [] =
   NExit 1 false [RTesting 2%N [] true; RTesting 4%N [55; 10; 56; 10; 49; 48; 10; 55; 10; 56; 10; 49; 48; 10]%N false; RFailed 4%N 2; RShadowTestsFailed] [].
 Proof. vm_compute. reflexivity. Qed.
+
+(* ---- arrays: an index out of range inside a shadow test.  The evaluator calls exit(1) on the spot ("Runtime Error: Array
+   index out of bounds"): no summary, exit status 1, nothing at the output path -- the gate stays closed, as it must (the
+   reference semantics faults at the same access, after the same output) *)
+Theorem C06_out_of_range_in_shadow_test_refuses :
+  run_interp 60 sparr_oob [] = TOob (Some 4%N) [49; 10]%N /\
+  ref_tests 60 sparr_oob = Some [(4%N, Fault FOob [49; 10]%N)] /\
+  (forall ph, front_ok ph = true -> nanoc ph 60 sparr_oob [] = NExit 1 false [] [2%N]).
+Proof. exact oob_at_compile_time. Qed.
+Print Assumptions C06_out_of_range_in_shadow_test_refuses.
+
+Example C06_gate_open_arrays_example : produces_binary (nanoc {| front_ok := true; later_ok := true |} 60 sparr_good []).
+Proof. vm_compute. exact I. Qed.
